@@ -16,6 +16,7 @@ from simcore.core import bump
 from . import world as W
 
 IO_BLOCKS = [1, 3, 7, 13, 64, 4096, None, None]
+_LOADS = [0]
 
 
 def gen_knobs(rng):
@@ -29,6 +30,7 @@ def gen_knobs(rng):
 def scratch():
     base = os.environ.get('VERIF_TMP') or ('/dev/shm' if os.path.isdir('/dev/shm') else tempfile.gettempdir())
     d = tempfile.mkdtemp(prefix='verif-world-', dir=base)
+    _LOADS[0] = 0          # the load counter (it seeds the task order of simulated thread pools) is per case
     try:
         yield d
     finally:
@@ -43,6 +45,9 @@ def environment(knobs, faults=None):
     from simcore import boot
     boot.register_asdf_extension()
     rt.Alloc.set(knobs.get('poison', 'A'))
+    from instr import simpool
+    simpool.Sim.seed(knobs.get('glob_seed', 0) + _LOADS[0])
+    _LOADS[0] += 1
     cfg = asdf.get_config()
     old_block = cfg.io_block_size
     orig_glob = pathlib.Path.glob
